@@ -41,8 +41,8 @@ SEQ = {
     ],
 }
 CONC = {
-    "quick": ["rc_q1", "wc_q1", "rc_q2", "wc_q2", "px_q1", "px_q2", "px_q3", "px_q4"],
-    "thorough": ["rc_q1", "wc_q1", "rc_q2", "wc_q2", "rc_t1", "wc_t1", "px_q1", "px_q2", "px_q3", "px_q4", "px_t1"],
+    "quick": ["rc_q1", "wc_q1", "rc_q2", "wc_q2", "px_q1", "px_q2", "px_q3", "px_q4", "px_q5"],
+    "thorough": ["rc_q1", "wc_q1", "rc_q2", "wc_q2", "rc_t1", "wc_t1", "px_q1", "px_q2", "px_q3", "px_q4", "px_q5", "px_t1"],
 }
 
 SEQ_RULES = {
